@@ -8,7 +8,7 @@ ARRAYS = [[], [7], [1, 2, 3], ["a", 1, 1.5, True], ["x", "héllo", "日本", ""]
 STRINGS = ["", "a", "abc", "héllo", "日本語", "a\nb", "  x  "]
 HASHES = [{}, {"a": 1}, {"a": 1, "b": "two", "c": 3.5}, {1: "int", "1": "str", 1.5: "flt"}, {2: "two", 10: "ten", "x": [1, 2]},
           {1.5: "a", 1.25: "b", 1.75: "c", 1: "one"}, {0.5: "half", 0.25: "quarter", 0: "zero", "0.5": "text"}, {-1.5: "m", -1.25: "n", 2.5: "p", 2.25: "q"},
-          {"ab": 1, "ba": 2, "a": 3, "b": 4, "": 5}, {65535: "x", 65536: "y", 4294967296: "z", -1: "w"}]
+          {"ab": 1, "ba": 2, "a": 3, "b": 4, "": 5}, {"a": 1, "A": 2, "b": 3, "B": 4, "c": 5}, {"Key": 1, "key": 2, "KEY": 3, "kEY": 4}, {65535: "x", 65536: "y", 4294967296: "z", -1: "w"}]
 
 def sort_key(k):
     # printed form, ties broken by type name (FLOAT < INTEGER < STRING)
